@@ -12,10 +12,11 @@ CLAUSES = {
     "compactify-particle-vars": "compactify leaves particle variables (indexed by pid) and npid alone",
     "setitem-only-target": "item assignment replaces that variable and nothing else, and stores a copy (later changes of the caller's array do not reach the state)",
     "error-leaves-state": "a rejected append raises ValueError and leaves the state unchanged",
+    "record-pids": "every output record (sparse: after the writer's own compactify; dense: never compactified) holds exactly the living particles, identifiers strictly increasing with pid[k] >= k, each with its own instance values; particle variables are indexed by identifier",
     "seq-ghost": "after every operation of a sequence the state equals the ghost model",
 }
 BOUNDS = {
-    "quick": "pre-state n<=3 particles, npid<=n+2, append m<=2 (scalar/array/default forms), arbitrary kill masks; sequences of 3 ops from empty",
+    "quick": "(output records: 3 rounds of release 0..2 / arbitrary deaths / variable update seen through real Output.write, sparse and dense) pre-state n<=3 particles, npid<=n+2, append m<=2 (scalar/array/default forms), arbitrary kill masks; sequences of 3 ops from empty",
     "thorough": "pre-state n<=4, npid<=n+2, append m<=3; sequences of 4 ops from empty",
 }
 ASSUMES = ["pre-state of the inductive step satisfies the representation invariant (pid strictly increasing, 0<=pid<npid, equal lengths)",
@@ -30,6 +31,8 @@ def scenarios(tier):
         for op in ("append_scalar", "append_array", "append_default", "kill_compactify", "setitem", "bad_name", "bad_shape", "bad_ndim"):
             out.append(dict(name=f"step-{op}-n{n}", fn="step", params=dict(n=n, op=op, mmax=mmax), cost=n + 1))
     out.append(dict(name=f"seq-d{depth}", fn="seq", params=dict(depth=depth), cost=50))
+    for layout in ("sparse", "dense"):
+        out.append(dict(name=f"records-{layout}-d3", fn="records", params=dict(depth=3, layout=layout), cost=40))
     return out
 
 
@@ -167,6 +170,89 @@ def step(W, p):
     _same_w(W, S, g["w"], "error-leaves-state")
     W.prove(S.npid == npid, "error-leaves-state")
     return (op, n)
+
+
+def records(W, p):
+    """the same operation sequences seen through the output file: real State + TimeKeeper + Output.write"""
+    from harness.common import T0, ovar
+
+    st, tk, out = W.load("ladim.state"), W.load("ladim.timekeeper"), W.load("ladim.out_netcdf")
+    depth, layout = p["depth"], p["layout"]
+    timer = tk.TimeKeeper(start=W.dt(T0), stop=W.dt(T0 + depth * 600), dt=600)
+    S = st.State(instance_variables=dict(age=float), particle_variables=dict(w=float), default_values=dict(age=0))
+    tmp = W.scratch()
+
+    class Grid:
+        pass
+
+    O = out.Output(dict(time=timer, state=S, grid=Grid()), filename=str(tmp / "o.nc"), output_period=600, layout=layout,
+                   instance_variables=dict(pid=ovar("i4"), X=ovar("f8"), age=ovar("f8")), particle_variables=dict(w=ovar("f8")))
+    rows, wtab, npid = [], [], 0  # rows: everything still in the (ghost) state; dead ones leave at the next sparse write
+    expect = []
+    trace = []
+    for t in range(depth):
+        timer.update()
+        # one release (0..2 particles), then deaths among those present, then an update of an instance variable
+        m = W.idx(W.int(f"m{t}", 0, 2))
+        xs = [W.real(f"x{t}_{i}") for i in range(m)]
+        ws = [W.real(f"w{t}_{i}") for i in range(m)]
+        S.append(X=W.arr(xs, "f"), Y=W.frac(1), Z=W.frac(2), w=W.arr(ws, "f"))
+        for i in range(m):
+            rows.append(dict(pid=npid + i, X=xs[i], age=0, alive=True))
+        wtab += ws
+        npid += m
+        n = len(rows)
+        kill = [W.truth(W.bool(f"k{t}_{k}")) for k in range(n)]
+        if n:
+            S.alive[W.arr(kill, "b")] = False
+        for k in range(n):
+            rows[k] = dict(rows[k], alive=rows[k]["alive"] and not kill[k])
+        d = W.real(f"d{t}")
+        S["age"] = S.age + d
+        rows = [dict(r, age=r["age"] + d) for r in rows]
+        O.update()
+        expect.append([dict(r) for r in rows if r["alive"]])
+        if layout == "sparse":
+            rows = [r for r in rows if r["alive"]]
+        trace.append((m, tuple(kill)))
+    O.close()
+    f = W.nc_read(tmp / "o.nc")
+    info = dict(layout=layout, history=trace)
+    conds = []
+    if layout == "sparse":
+        pc = f["vars"]["particle_count"]
+        off = 0
+        ok = len(pc) == depth and not any(W.is_fill(c) for c in pc)
+        for t in range(depth if ok else 0):
+            c = int(pc[t])
+            pid = [int(q) for q in f["vars"]["pid"][off:off + c]]
+            ok = ok and pid == [r["pid"] for r in expect[t]] and all(a < b for a, b in zip(pid, pid[1:])) and all(q >= k for k, q in enumerate(pid))
+            if ok:
+                conds += [W.eq(a, r["X"]) for a, r in zip(f["vars"]["X"][off:off + c], expect[t])]
+                conds += [W.eq(a, r["age"]) for a, r in zip(f["vars"]["age"][off:off + c], expect[t])]
+            off += c
+        W.prove(ok, "record-pids", dict(info, note="membership/order", counts=[None if W.is_fill(c) else int(c) for c in pc]))
+    else:
+        ok = len(f["vars"]["X"]) == depth
+        for t in range(depth if ok else 0):
+            rowx, rowa = f["vars"]["X"][t], f["vars"]["age"][t]
+            live = {r["pid"]: r for r in expect[t]}
+            for k in range(len(rowx)):
+                if k in live:
+                    ok = ok and not W.is_fill(rowx[k]) and not W.is_fill(rowa[k])
+                    if ok:
+                        conds += [W.eq(rowx[k], live[k]["X"]), W.eq(rowa[k], live[k]["age"])]
+                else:
+                    ok = ok and W.is_fill(rowx[k]) and W.is_fill(rowa[k])
+            ok = ok and all(k < len(rowx) for k in live)
+        W.prove(ok, "record-pids", dict(info, note="column k is filled exactly while particle k lives"))
+    w = f["vars"].get("w")
+    okw = w is not None and len(w) == npid and not any(W.is_fill(x) for x in w)
+    W.prove(okw, "record-pids", dict(info, note="particle variable length", got=None if w is None else len(w), expected=npid))
+    if okw:
+        conds += [W.eq(a, b) for a, b in zip(w, wtab)]
+    W.prove(W.all(conds), "record-pids", dict(info, note="values follow the identifier"))
+    return tuple(trace)
 
 
 def W_last(W, name):
